@@ -325,7 +325,9 @@ class C10(Check):
         start, end, ns, ne, names_s, names_e, rule_start_fixed = self._align_molecules(case, seed)
         guess = case['k'] == 'alignguess'
         if guess:
-            lists, igns = [None], [case['ign']]
+            # None = let the library guess; [] = the user explicitly asks for NO restraints on the same
+            # multi-residue molecules (nothing may be guessed then)
+            lists, igns = ([None, []] if 'empty' not in case else [[] if case['empty'] else None]), [case['ign']]
         elif 'restr' in case:
             lists, igns = [[tuple(p) for p in case['restr']]], [case['ign']]
         else:
@@ -346,7 +348,10 @@ class C10(Check):
             for ign in igns:
                 tagi = 'ignoreH' if ign else 'keepH'
                 for lst in lists:
-                    cdesc = dict(case, ign=ign) if guess else dict(case, restr=[list(p) for p in lst], ign=ign)
+                    multi = case['k'] == 'alignguess'
+                    guess = multi and lst is None
+                    cdesc = dict(case, ign=ign, empty=int(lst is not None)) if multi else \
+                        dict(case, restr=[list(p) for p in lst], ign=ign)
                     cdesc.pop('igns', None)
                     del rec[:]
                     ali = Alignment(start, end)
@@ -360,9 +365,10 @@ class C10(Check):
                             continue
                     else:
                         user = lst
-                    sigbase = f"align{'-guessed' if guess else ''}/{role}/{tagi}"
+                    sigbase = f"align{'-guessed' if guess else ('-multiresidue-explicit-empty-list' if multi else '')}/{role}/{tagi}"
                     cls = (f"alignguess/{ns}x{ne}/{tagi}" if guess
-                           else f'align/{ns}x{ne}/len{len(lst)}/{tagi}')
+                           else (f'alignguess-explicit-empty/{ns}x{ne}/{tagi}' if multi
+                                 else f'align/{ns}x{ne}/len{len(lst)}/{tagi}'))
                     # the user's own list object is handed to TWO consecutive runs: the second run
                     # must designate the same atoms as the first (the list must not be consumed)
                     user_obj = None if guess else list(lst)
